@@ -25,7 +25,7 @@ BOOT_SRC = "array_test boot buffer_test number_test system_test table_test".spli
 # libc entry points that go through the simulator (link-time --wrap)
 WRAPS = """clock_gettime time nanosleep sleep timerfd_create timerfd_settime
 epoll_create1 epoll_ctl epoll_wait
-read write recv send recvfrom sendto accept4 accept connect close pipe pipe2 socket dup dup2 shutdown bind listen
+read write recv send recvfrom sendto accept4 accept connect close pipe pipe2 socket dup dup2 fcntl fcntl64 shutdown bind listen
 pthread_create pthread_join pthread_cancel pthread_mutex_lock pthread_mutex_unlock
 pthread_rwlock_rdlock pthread_rwlock_wrlock pthread_rwlock_unlock
 posix_spawn posix_spawnp posix_spawn_file_actions_init posix_spawn_file_actions_adddup2
